@@ -529,7 +529,7 @@ def run(tier, seed):
         "re-spelled by a non-alias spelling or a translate battery with >= 1 non-alias hit; distinct by "
         "content hash")
     rep.cov["coq_eval_seconds"] = round(coq1 + coq2, 2)
-    rep.cov["exhaustive"] = {
+    rep.cov["exhaustive_scope"] = {
         "scope": "plain MR (with and without insertion flag) and CA dimensions with 1..%d items x every "
                  "item x spellings {alias, subvar id, int id, str id, position int/str when valid} x "
                  "slots {hide, rename, explicit, fixed top, fixed bottom, opposing element}"
